@@ -136,6 +136,8 @@ pub fn eval(c: &Case, obs: &mut Obs) -> Result<(), String> {
 }
 
 fn eval_inner(c: &Case, obs: &mut Obs) -> Result<(), String> {
+    // allocations get exactly the alignment they ask for (see alloc_track)
+    let _exact = crate::alloc_track::exact_align();
     let isa = if c.arch == 0 { h::HeaderTagISA::I386 } else { h::HeaderTagISA::MIPS32 };
     let arch_word = if c.arch == 0 { 0u32 } else { 4 };
     let mut b = h::Builder::new(isa);
